@@ -43,8 +43,12 @@ type wcExec struct {
 	cancels []context.CancelFunc
 }
 
+// ctx: 0 = nil, 1..NCtx cancellable, NCtx+1 = context.Background() (a context nobody can ever cancel)
 func (x *wcExec) ctx(i int) context.Context {
-	if i <= 0 || i >= len(x.ctxs) {
+	if i == len(x.ctxs) {
+		return context.Background()
+	}
+	if i <= 0 || i > len(x.ctxs) {
 		return nil
 	}
 	return x.ctxs[i]
@@ -153,13 +157,13 @@ func genWaitCondScenario(rng *rand.Rand, profile, mode string) any {
 	}
 	if rng.Intn(100) < 45 {
 		// shape: the events that must wake a parked waiter race with its going to sleep
-		w := WCOp{K: "wait", Ctx: rng.Intn(3), V: 1 + rng.Intn(2)}
+		w := WCOp{K: "wait", Ctx: rng.Intn(4), V: 1 + rng.Intn(2)}
 		sc.Drivers = [][]WCOp{{w}, {{K: "nop", N: rng.Intn(10)}, {K: "set", V: rng.Intn(3)}}}
-		if w.Ctx != 0 {
+		if w.Ctx == 1 || w.Ctx == 2 {
 			sc.Drivers = append(sc.Drivers, []WCOp{{K: "nop", N: rng.Intn(10)}, {K: "cancel", Ctx: w.Ctx}})
 		}
 		if rng.Intn(2) == 0 {
-			sc.Drivers = append(sc.Drivers, []WCOp{{K: "nop", N: rng.Intn(6)}, {K: "wait", Ctx: rng.Intn(3), V: 1 + rng.Intn(3)}})
+			sc.Drivers = append(sc.Drivers, []WCOp{{K: "nop", N: rng.Intn(6)}, {K: "wait", Ctx: rng.Intn(4), V: 1 + rng.Intn(3)}})
 		}
 		if rng.Intn(2) == 0 {
 			sc.Drivers = append(sc.Drivers, []WCOp{{K: "nop", N: rng.Intn(12)}, {K: "set", V: rng.Intn(4)}})
@@ -174,7 +178,7 @@ func genWaitCondScenario(rng *rand.Rand, profile, mode string) any {
 			}
 			switch r := rng.Intn(100); {
 			case d%2 == 0 && r < 70:
-				ops = append(ops, WCOp{K: "wait", Ctx: rng.Intn(3), V: 1 + rng.Intn(4)})
+				ops = append(ops, WCOp{K: "wait", Ctx: rng.Intn(4), V: 1 + rng.Intn(4)})
 			case r < 60:
 				ops = append(ops, WCOp{K: "set", V: rng.Intn(5)})
 			case r < 92:
@@ -216,11 +220,15 @@ func runWaitCondExec(execID int, sci any, e *Env) []rec.Ev {
 	e.WaitTerminal()
 	if e.Infra == "" && !e.Res.Diverged {
 		quiescent(0)
-		// epilogue: a value that satisfies every waiter (no cancellation: the contexts stay live until after the census,
-		// so a watcher goroutine that is only released by its parent context would be counted)
+		// epilogue: a value that satisfies every waiter
 		e.Spawn("E1", func(g string) { x.do(g, WCOp{K: "set", V: 100}) })
 		e.WaitTerminal()
 		quiescent(1)
+	}
+	// every context that can be cancelled is cancelled before the census (C12's wording); waits on context.Background()
+	// have returned too, so a watcher goroutine that only its parent context would release is counted
+	for i := 1; i <= sc.NCtx; i++ {
+		x.cancels[i]()
 	}
 	left := e.End(3*time.Second, harnessOrLib)
 	nlib := 0
@@ -231,9 +239,6 @@ func runWaitCondExec(execID int, sci any, e *Env) []rec.Ev {
 	}
 	e.R.Add(rec.Ev{"ev": "final", "leaked": nlib, "returned": e.DriversDone()})
 	e.St.Leaks += nlib
-	for i := 1; i <= sc.NCtx; i++ {
-		x.cancels[i]()
-	}
 	return e.R.Events()
 }
 
